@@ -51,6 +51,8 @@ MC = {
     # ---- decoder (MC_Decoder.tla over DecoderSM / Decoder) ----
     "sound_adv": {"module": "MC_Decoder",
                   "cfg": dec_cfg("TokADV", "FirstADV", q(5, 6), ["TypeOK", "Sound"])},
+    "sound_rawcrc": {"module": "MC_Decoder",
+                     "cfg": dec_cfg("TokRAWCRC", "FirstRAWCRC", q(8, 9), ["TypeOK", "Sound", "Tiles"])},
     "tiles_adv": {"module": "MC_Decoder",
                   "cfg": dec_cfg("TokADV", "FirstADV", q(4, 5), ["TypeOK", "Tiles"])},
     "total_hist": {"module": "MC_Decoder",
@@ -91,7 +93,7 @@ MC = {
     "capacity_pay": {"module": "MC_Decoder",
                      "cfg": dec_cfg("TokCAP", "FirstCAP", 2, ["TypeOK", "CapacityRule", "CapRespect", "Resync", "Tiles"],
                                     caps=q("CapsQuick", "CapsThorough"), paylen=q(4, 6))},
-    "frame_rle": {"module": "MC_FrameRle", "workers": 2, "cfg": "INIT Init\nNEXT Next\nINVARIANT Agree\nCONSTANTS\n  PayBytes = {27, 0, 85, 1}\n  PayLen = 6\nCHECK_DEADLOCK FALSE\n"},
+    "frame_rle": {"module": "MC_FrameRle", "workers": 1, "cfg": "INIT Init\nNEXT Next\nINVARIANT Agree\nCONSTANTS\n  PayBytes = {27, 0, 85, 1}\n  PayLen = 6\nCHECK_DEADLOCK FALSE\n"},
     "arraybuf": {"module": "MC_ArrayBuf",
                  "cfg": lambda tier: "SPECIFICATION Spec\nCONSTANTS\n  Caps = {0, 1, 2, 3}\n  ByteVals = {0, 1}\n  MaxOps = %d\n  MaxSlice = %d\n  EmitJson = FALSE\n"
                                      "INVARIANT Refines\nINVARIANT SameResult\nINVARIANT ViewOnly\nCHECK_DEADLOCK FALSE\n" % ((5, 2) if tier == "thorough" else (4, 2))},
@@ -119,6 +121,8 @@ MC = {
     # negative controls: the as-found constants must break the corresponding invariant
     "neg_matcher_drop": {"module": "MC_Decoder", "expect": "MatcherExact",
                          "cfg": dec_cfg("TokNOISE", "FirstNOISE", 6, ["MatcherExact"], fallback="drop")},
+    "neg_rawcrc_accepts": {"module": "MC_Decoder", "expect": "CrcTokenNeverAccepted",
+                           "cfg": dec_cfg("TokRAWCRC", "FirstRAWCRC", 7, ["CrcTokenNeverAccepted"])},
     "neg_resync_drop": {"module": "MC_Decoder", "expect": "Resync",
                         "cfg": dec_cfg("TokNOISE", "FirstNOISE", 6, ["Resync"], fallback="drop")},
     "neg_capacity_drop": {"module": "MC_Decoder", "expect": "Resync",
@@ -209,9 +213,9 @@ PROPS = {
                   "encode::<Vec>, encode::<ArrayBuf<N>>, encode_streaming and decoded by 11-14 front-end configurations; one record per (payload, frame); non-trivial = every record"),
                 mc={"quick": ["roundtrip_pay", "contract_pay"], "thorough": ["roundtrip_pay", "contract_pay"]},
                 steps=[{"cmd": "c01", "judge": "J_C01"}]),
-    "C02": dict(T("every ok event of the real decoder front-ends (push, decode_streaming, SmlReader over iterator / io::Read) on ADV / INFRAME / PADX / NEARSTART / HIST token trees, corpus dumps and "
+    "C02": dict(T("every ok event of the real decoder front-ends (push, decode_streaming, SmlReader over iterator / io::Read) on ADV / INFRAME / RAWCRC (a matching checksum behind any body and behind damaged or misplaced escape sequences) / PADX / NEARSTART / HIST token trees, corpus dumps and "
                   "seeded mutations; a record is (payload, tail of the consumed prefix); distinct = distinct (prefix tail, payload) pairs; every record is an accepted frame; front-ends include small fixed capacities (1/4/6/9) and decoders built with from_buf on a non-empty buffer; CAPTAIL: prefix + lone 0x1b run / literal escape / zeros + a tail of 8..12 bytes, followed by a small frame, through every fixed capacity 0..|p|+1"),
-                mc={"quick": ["sound_adv", "contract_adv"], "thorough": ["sound_adv", "contract_adv", "total_hist", "sim_hist"]},
+                mc={"quick": ["sound_adv", "sound_rawcrc", "contract_adv"], "thorough": ["sound_adv", "sound_rawcrc", "contract_adv", "total_hist", "sim_hist"]},
                 steps=[{"cmd": "c02", "judge": "J_C02"}]),
     "C05": dict(T("push/finalize/reset histories (HIST), INFRAME, NOISE, corpus, mutations on Decoder<Vec> and Decoder<ArrayBuf<N>> N in {0,1,2,3,8}, each followed by finalize + empty frame + finalize; "
                   "long runs (2^8, 2^16 +-1, 2^17+1) through all front-ends; overflow-checked build; distinct = distinct (capacity, event list); ALLOCFAIL: encode::<Vec<u8>>, Decoder<Vec<u8>>::push_byte and decode_streaming::<Vec<u8>> in a worker process whose allocator refuses every request above 1..512 bytes (outcome: correct result or OutOfMemory; a dead worker is an abort)"),
@@ -239,7 +243,7 @@ PROPS = {
                 mc={"quick": ["reader_faults_1"], "thorough": ["reader_faults_1", "reader_faults_2", "reader_faults_3"]},
                 steps=[{"cmd": "c15", "judge": "J_C15"}]),
     "C16": dict(T("payloads over {1b,00,55} up to length 6/8 + crafted tails + random, x every capacity 0..|m|+1 (<= 48), via Decoder<ArrayBuf<N>>, decode_streaming::<ArrayBuf<N>>, "
-                  "SmlReader::with_static_buffer::<N>, each followed by an empty frame; 8 KiB default buffer with 8191/8192/8193-byte payloads"),
+                  "SmlReader::with_static_buffer::<N>, each followed by an empty frame; 8 KiB default buffer with 8191/8192/8193-byte payloads; fixed buffers of 65535 / 65536 / 65537 / 65541 / 66000 bytes exactly full and overflowing (payloads of 65535 .. 70000 bytes)"),
                 mc={"quick": ["capacity_pay", "contract_cap", "contract_zeros"], "thorough": ["capacity_pay", "contract_cap", "contract_zeros"]},
                 proofs=["zero_cache"],
                 steps=[{"cmd": "c16", "judge": "J_C16"}]),
@@ -253,7 +257,7 @@ PROPS = {
                 mc={"quick": ["grammar"], "thorough": ["grammar", "tlf_exact"]},
                 steps=[{"cmd": "c04", "judge": "J_C04", "cfg": "JudgeP.cfg"}]),
     "C06": dict(P("declared-length bombs (2^k-1, 2^k for k in 4..32, and beyond 32 bits) at every TLF of every base file, structural edits and a sample of the other corruptions; each case run in a worker "
-                  "process under a watchdog with a counting global allocator; type-length fields of 2^16 / 2^18 / 2^20 bytes; record = (|x|, outcomes, allocation count / largest / total)"),
+                  "process under a watchdog with a counting global allocator; type-length fields of 2^16 / 2^18 / 2^20 bytes; BOMBLIST: list responses declaring 2^20 / 2^28 / 2^32-1 entries followed by 0..300 valid entries (cut off or with trailer); LONGLIST: lists of thousands of entries (messages > 2^16 bytes); record = (|x|, outcomes, allocation count / largest / total)"),
                 mc={"quick": ["grammar"], "thorough": ["grammar", "tlf_long"]},
                 steps=[{"cmd": "c06", "judge": "J_C06", "cfg": "JudgeP.cfg"}]),
     "C09": dict(P("the same corruption families as C04; both real parsers on every input; records de-duplicated by (allocating result, event list)"),
@@ -275,12 +279,12 @@ PROPS = {
                 mc={"quick": ["tlf_exact", "tlf_long"], "thorough": ["tlf_exact", "tlf_long", "grammar"]},
                 proofs=["tlf_acc"],
                 steps=[{"cmd": "c12", "judge": "J_C12", "cfg": "JudgeP.cfg"}]),
-    "C13": dict(P("the same corruption families as C04; next() is called until None (at most |x|+8 items) and 5 more times; record = (|x|, items, items after the end, error positions)"),
+    "C13": dict(P("the same corruption families as C04 plus LONGLIST (list responses whose message exceeds 2^16 / 2^17 bytes: 8/16/32-byte entries, declared length = / +1 / 2^20 / 2^32-1, complete and cut off); next() is called until None (at most |x|+8 items) and 5 more times; record = (|x|, items, items after the end, error positions)"),
                 mc={"quick": ["grammar"], "thorough": ["grammar"]},
                 proofs=["stream_abs"],
                 steps=[{"cmd": "c13", "judge": "J_C13", "cfg": "JudgeP.cfg"}]),
     "C18": dict({"rule": "operation sequences over push / extend_from_slice / truncate / clear / from_iter: every maximal behaviour TLC generates from MC_ArrayBuf (replayed into the real type), the harness' own "
-                         "exhaustive enumeration of depth 3 (4 in thorough) for N in 0..3 (and 4, Vec in thorough), random histories of up to 24 operations on N in {5,8,16,31,48,255,256} and Vec; truncate arguments up to 2^31-1 (incl. 2^8, 2^16 and 2^24 plus small offsets)",
+                         "exhaustive enumeration of depth 3 (4 in thorough) for N in 0..3 (and 4, Vec in thorough), random histories of up to 24 operations on N in {5,8,16,31,48,255,256} and Vec; truncate arguments up to 2^31-1 (incl. 2^8, 2^16 and 2^24 plus small offsets); BIG: N in {65536, 66000, 70000} filled across the 2^16 boundary (extend 65535 bytes, push, push, truncate, extend)",
                  "assumptions": ["TLC evaluates ArrayBuf.IdealObs correctly", "std's Debug for slices is the reference for the Debug clause", "capacities limited to the ArrayBuf<N> instantiations compiled into the harness"]},
                 mc={"quick": ["arraybuf"], "thorough": ["arraybuf"]},
                 proofs=["arraybuf_ref"],
